@@ -35,7 +35,7 @@ NODESET_ONLY = {"selectNodeList", "selectSingleNode"}        # a number-valued e
 XERCES_SCEN = {"prebuiltXerces", "evalDocXerces"}
 INVALID = {"truncate", "dropTag", "dupTag", "swapTag", "unclosedQuote", "illegalChar", "brokenUtf8", "loneSurrogate", "fffe", "nul",
            "unknownXmlEncoding", "wrongXslNamespaceRoot", "unknownXslElement", "unknownXslAttribute", "missingRequiredAttribute",
-           "avtUnbalanced", "nonExpression"}
+           "avtUnbalanced", "nonExpression", "undefinedVariable"}
 OPEN = {"unknownOutputEncoding", "xpathIllegalChar", "fuzz"}
 SAN_ENV = {"ASAN_OPTIONS": "detect_leaks=1:abort_on_error=0:handle_segv=0:handle_abort=0:handle_sigbus=0:handle_sigfpe=0:handle_sigill=0:"
                            "allocator_may_return_null=1:detect_stack_use_after_return=0:malloc_context_size=12:fast_unwind_on_malloc=1",
@@ -123,7 +123,7 @@ def build_inputs(ds, quick, seed, stats):
 
 
 # depth 100000: a document / template body of that depth costs minutes of CPU under ASan (quadratic), a path of 100000 steps too
-QUICK_DEEPEST = {("deepParens", "parens"), ("deepParens", "calls"), ("deepPredicates", "nested")}
+QUICK_DEEPEST = {("deepParens", "parens"), ("deepParens", "calls"), ("deepPredicates", "nested"), ("deepSteps", "child")}
 THOROUGH_DEEPEST_DOCS = {("deepDocument", "elements"), ("deepTemplateBody", "lre")}
 BATCH = 25
 
@@ -280,6 +280,12 @@ def symptom_key(ex, k):
     ev = ex[k]
     call = next((e for e in reversed(ex[:k]) if e.get("e") == "Call"), {})
     e = ev.get("e")
+    if e == "Abort" and k > 0 and ex[k - 1].get("e") == "Return" and ev.get("why") in ("SIGSEGV", "SIGBUS", "sanitizer", "SIGILL", "SIGABRT"):
+        # the call had returned: the crash is in the Probe, i.e. the object was left unusable; how the damaged object fails
+        # (wild jump, overrun of whatever lies there) is not part of the finding
+        r = ex[k - 1]
+        obj = {"T": "XalanTransformer", "C": "XalanTransformer (C API)", "E": "XPathEvaluator", "X": "XPathEvaluator (XPath C API)"}.get(r.get("h"), "?")
+        return "the next use of the %s crashes after a call that %s" % (obj, "reported an error" if r.get("status") != 0 else "succeeded")
     if e == "Abort":
         why, detail = ev.get("why", "?"), ev.get("detail", "")
         lib = library_frames(ev.get("frames", []))
@@ -347,6 +353,11 @@ def finding_key(ex, k, it):
     if e == "Return":          # wrong status: the class and its variant ARE the finding
         v = variant_of(it)
         return "%s%s | %s" % (it["cls"], (" [" + v + "]") if v else "", sym)
+    if sym.startswith("the next use of the"):      # whatever made the call fail
+        return "* | " + sym
+    call = next((x for x in reversed(ex[:k]) if x.get("e") == "Call"), None)
+    if call is not None and call.get("cls") == "seed":       # the crash is in a call on a fixed well-formed input
+        fam = "seed"
     return "%s | %s" % (fam, sym)
 
 
